@@ -11,7 +11,7 @@ import os
 
 from sa.ast import render
 from sa.facts import Inconclusive, VERIF
-from sa import buf
+from sa import buf, query
 
 META = {
     "level": "proof",
@@ -133,9 +133,40 @@ def b5_length_tests(prog, ctx):
                 if not is_len or lit.node.id in seen:
                     continue
                 seen.add(lit.node.id)
+                # which side is the one for LONG text, and what happens there?  Only a side that turns the text down (a failure
+                # return) or passes it over (the next round of a loop) makes the constant a limit; a side that handles long text
+                # another way (a heap copy instead of a scratch buffer) does not.
+                if lit.kind == "lt":
+                    long_when = (x is lit.rhs)          # C < len  holds on the long side
+                    long_edge = 0 if (lit.pol == long_when) else 1
+                else:
+                    long_edge = 0 if lit.pol else 1     # len == C: the side on which it holds
+                succs = cfg.blocks[b].succs
+                if len(succs) < 2:
+                    continue
+                cur, hops, verdict = succs[long_edge], 0, None
+                while cur is not None and hops < 6:
+                    r6 = cfg.return_of_block(cur)
+                    if r6 is not None:
+                        rc = query.returned_constant(r6)
+                        verdict = "refused (%s)" % rc if rc not in (0, "ECONF_SUCCESS", None) else None
+                        break
+                    nx = [q for q in cfg.blocks[cur].succs if q is not None]
+                    cur = nx[0] if len(nx) == 1 else None
+                    hops += 1
+                if verdict is None:
+                    # the long side is where the short side arrives anyway: what the short side does in between is left out for long text
+                    L9, S9 = succs[long_edge], succs[1 - long_edge]
+                    back9 = set((bb, ii) for (bb, ii, ss) in cfg.back_edges())
+                    if L9 is not None and S9 is not None and L9 != S9 and L9 in cfg.reachable(S9, avoid_edges=back9):
+                        verdict = "passed over (what is done for shorter text is skipped)"
+                if verdict is None:
+                    ctx.ok("B5", "%s: length test `%s` is not a limit" % (f.name, lit), lit.node.where, "text of that length is handled on its own branch, not turned down or skipped")
+                    n_ok = True
+                    continue
                 n += 1
                 ctx.fail("B5", "%s: no test of a text length against a constant" % f.name, lit.node.where,
-                         "`%s` is compared with %d (%s): text of that length is treated differently - a length limit" % (render(xs), cv, render(y)),
+                         "`%s` is compared with %d (%s) and text of that length is %s - a length limit" % (render(xs), cv, render(y), verdict),
                          key="length-test:%s:%s" % (f.name, render(xs)))
     if n == 0:
         ctx.ok("B5", "no test of a text length against a constant in lib/", "", "no branch compares strlen() of anything (or a local holding it) with a constant above 1")
@@ -232,7 +263,7 @@ def run(prog, ctx):
     b4_bounded_compares(prog, ctx)
     b5_length_tests(prog, ctx)
     b6_stack_copies(prog, ctx)
-    ctx.floor("C14 fixed char arrays in lib/", len(la), 6)
-    ctx.floor("C14 fixed char arrays in util/", len(ua), 10)
+    ctx.floor("C14 fixed char arrays in lib/", len(la), 3)
+    ctx.floor("C14 fixed char arrays in util/", len(ua), 6)
     ctx.floor("C14 write sites", len(ls) + len(us), 25)
-    ctx.floor("C14 exact-fit allocations", len(lf) + len(uf), 6)
+    ctx.floor("C14 exact-fit allocations", len(lf) + len(uf), 3)
